@@ -70,6 +70,13 @@ impl Deep {
     }
 }
 
+/// an enum whose only variant is untagged and renders as a union
+#[derive(TS, Serialize, Deserialize, Debug, Clone, PartialEq)]
+#[serde(untagged)]
+pub enum OneU {
+    Only(#[ts(inline)] TagE),
+}
+
 /// a type that refers to itself
 #[derive(TS, Serialize, Deserialize, Debug, Clone, Default, PartialEq)]
 pub struct Tree {
